@@ -8,6 +8,15 @@ PY = '/venv/bin/python'
 
 # property -> (category, level text, level note, technique, design ref)
 CLAIMED = {
+    'C13': ('other',
+            'Static rules on vpk.py: CFG dominance of the writable-mode guard over every mutation of the file table / storage fields / archive files; '
+            'wire agreement of the directory reader and writer (header and entry formats, entry slot -> FileInfo field linkage through the constructor, '
+            'terminator 0xffff, None <-> DIR_ARCH_INDEX both ways, three-level nesting with one terminator per level, empty-string convention); placement '
+            'agreement - read, verify and write use footer_data exactly when arch_index is None and a numbered file otherwise; all lookups normalise '
+            'through _get_file_parts; the checksum covers the whole data; the preload is bounded to the 16-bit length field.',
+            'Trusted: CPython ast, engine/cfg.py, engine/wire.py. Byte equality over operation sequences and CRC32 collisions are not claimed.',
+            'static: guard dominance + reader/writer wire and field linkage + placement (guard, storage) agreement',
+            'DESIGN.md section 3, C13'),
     'C11': ('other',
             'Wire-effect extraction (engine/wire.py): every struct-format read/write of the 19 binary view pairs is extracted in source order with '
             'its source/sink lump; version/layout gates are decided by a finite-domain evaluator for five engine configurations and, for static '
